@@ -23,7 +23,7 @@ func init() {
 			{Name: "l1-programs", Fn: scnC03L1, Weight: 3, Group: c03Group},
 			{Name: "syncmap-linearizable", Fn: scnC03SyncMap, Weight: 1, Group: c03Group},
 		},
-		Rule: "tape-generated concurrent programs (2-5 tasks, <=10 tracker operations: logins, invalid logins, events of one or two sessions incl. one session's events from two tasks, events of a session the tracker never saw a LOGIN record for, cleanup with a past or future cut-off) x schedules " +
+		Rule: "tape-generated concurrent programs (2-5 tasks, <=10 tracker operations: logins, invalid logins, events of one or two sessions incl. one session's events from two tasks, events of a session the tracker never saw a LOGIN record for, cleanup with a past or future cut-off; one program in six: the LOGIN record that consumes a waiting login delivered concurrently with the login of the next sshd process that has the same PID) x schedules " +
 			"(baseline, systematic single-preemption sweep over (tasks completed first, preempted task, point), PCT d<=3, random, biased); " +
 			"plus the GenericSyncMap both maps are built on: concurrent Store/Load/Has/Delete/Len/Iterate/WithLockedValueDo histories checked for linearizability against a plain map (porcupine); " +
 			"non-trivial = at least one preemption of a task that was still runnable (a context switch inside an operation sequence); " +
@@ -34,7 +34,9 @@ func init() {
 }
 
 type c03Program struct {
-	World  *L1World
+	World *L1World
+	// Pre is delivered sequentially before the tasks start
+	Pre    []L1Op
 	Prog   [][]L1Op
 	Probes []L1Op
 	Desc   []string
@@ -59,7 +61,53 @@ func interleavings(prog [][]L1Op) int {
 	return n
 }
 
+// genC03Reuse: a login waits for its session; the LOGIN record that consumes it is delivered
+// concurrently with the login of the next sshd process that got the same PID.
+func genC03Reuse(t *simrt.Tape) *c03Program {
+	k := NewKaudit()
+	w := &L1World{}
+	p := &c03Program{World: w}
+	pid := 4000
+	for si := 0; si < 2; si++ {
+		ses := fmt.Sprint(500 + si)
+		s := &Session{Ses: ses, PID: pid, UID: 1000 + si, Kind: "ssh"}
+		s.Login = GenLogin(t, pid, si+1)
+		s.Events = append(s.Events, k.Login(ses, pid, s.UID))
+		if si == 1 || t.Choose(2, "reuse.follow") == 1 {
+			s.Events = append(s.Events, GenAction(t, k, ses, pid, s.UID))
+		}
+		s.Events = append(s.Events, k.UserMsg("USER_LOGIN", ses, pid, s.UID, true, 0))
+		w.Sessions = append(w.Sessions, s)
+	}
+	s0, s1 := w.Sessions[0], w.Sessions[1]
+	p.Pre = []L1Op{{Kind: "login", S: 0}}
+	var evs []L1Op
+	for i := 0; i < len(s0.Events)-1; i++ {
+		evs = append(evs, L1Op{Kind: "event", S: 0, E: i})
+	}
+	p.Prog = [][]L1Op{evs, {{Kind: "login", S: 1}}}
+	if t.Choose(3, "reuse.cleanup") == 2 {
+		p.Prog = append(p.Prog, []L1Op{{Kind: "cleanup", Cut: -3600}})
+	}
+	for i := range s1.Events {
+		p.Probes = append(p.Probes, L1Op{Kind: "event", S: 1, E: i})
+	}
+	p.Probes = append(p.Probes, L1Op{Kind: "event", S: 0, E: len(s0.Events) - 1})
+	p.Desc = append(p.Desc, fmt.Sprintf("before: %v", p.Pre))
+	for ti, ops := range p.Prog {
+		var ss []string
+		for _, o := range ops {
+			ss = append(ss, o.String())
+		}
+		p.Desc = append(p.Desc, fmt.Sprintf("T%d: %s", ti, strings.Join(ss, "; ")))
+	}
+	return p
+}
+
 func genC03Program(t *simrt.Tape) *c03Program {
+	if t.Choose(6, "pid.reuse") == 5 {
+		return genC03Reuse(t)
+	}
 	k := NewKaudit()
 	w := &L1World{}
 	nSess := 1 + t.Choose(2, "nsess")
@@ -181,6 +229,9 @@ func scnC03L1(rc *RunCtx) {
 		return
 	}
 	key := progKey(p.World, p.Prog, p.Probes)
+	if len(p.Pre) > 0 {
+		key = hashStr(key, fmt.Sprint(p.Pre))
+	}
 	rc.CaseKey(key)
 
 	// schedule for this run
@@ -211,6 +262,16 @@ func scnC03L1(rc *RunCtx) {
 
 	rec := &Recorder{Sim: rc.Sim}
 	tr := newTracker(rec)
+	if len(p.Pre) > 0 {
+		rec.NoPoint = true
+		var perrs []string
+		if stuck := p.World.execAllInline(tr, p.Pre, &perrs); stuck != "" || len(perrs) > 0 {
+			rc.Abort("deliveries before the concurrent phase failed: %s %v", stuck, perrs)
+			return
+		}
+		rec.NoPoint = false
+		rc.Sim.Count("c03.pid_reuse_program")
+	}
 	pr := spawnProgram(rc, p.World, tr, p.Prog)
 	why := rc.Sim.RunUntil(pr.done, 5000)
 	rc.R.NonTrivial = rc.Sim.Preempts > 0
@@ -243,7 +304,7 @@ func scnC03L1(rc *RunCtx) {
 
 	ce := seqCache[key]
 	if ce == nil {
-		outs, n := p.World.seqOutcomes(p.Prog, p.Probes, c03MaxOrders+1)
+		outs, n := p.World.seqOutcomes(p.Pre, p.Prog, p.Probes, c03MaxOrders+1)
 		ce = &seqCacheEntry{outs, n}
 		seqCache[key] = ce
 	}
